@@ -649,6 +649,15 @@ theorem sim3_exp_log_history_independent (pre post : List (ℝ × sim3 ℝ)) (ep
     (runCalls sim3LogExp (pre ++ (eps, x) :: post))[pre.length]? = some (sim3LogExp eps x) :=
   calls_history_independent _ pre post eps x
 
+/-- atomicity of a refused call: in a history where some calls fail (`Except.error`, e.g. `Log` of an algebra element), every
+other call returns what it returns in the history without the failed ones — instance of `calls_history_independent` with
+`Except` results (the model has no state a failing call could leave behind; the code is tested by the oracle `atomic`). -/
+theorem calls_atomic_on_error {β γ : Type} (f : ℝ → β → Except String γ) (pre post : List (ℝ × β)) (bad : ℝ × β)
+    (eps : ℝ) (x : β) :
+    (runCalls f (pre ++ bad :: (eps, x) :: post))[pre.length + 1]? = (runCalls f (pre ++ (eps, x) :: post))[pre.length]? := by
+  unfold runCalls
+  simp
+
 /-! ## non-vacuity: the hypotheses are satisfiable by non-trivial values (and the conclusions instantiate) -/
 section NonVacuity
 open C02Ex
